@@ -6,6 +6,7 @@
     read-only calls interleaved anywhere never change any later state, output or hash.
     Statements are restated in full; proofs are in HashFacts.v. *)
 From IAVL Require Import Bytes Varint Sha256 Tree VMap TreeFacts MTree MTreeFacts HashFacts.
+From IAVL Require Memo MemoFacts.
 Local Open Scope Z_scope.
 
 (** The code's hash (which trusts the hash stored in persisted nodes) is the structural hash
@@ -275,3 +276,84 @@ Example C02_init0_read_back_refuted :
     snd (run sha256 (init_state 0 true) [OSet [1%N] [10%N]; OSave; ORead (TVersion 0) RHash]) =
       [XBool false; XPair (XBytes (Some h)) (XInt 0); XBytes (Some h')].
 Proof. vm_compute. do 2 eexists. split; [|reflexivity]. discriminate. Qed.
+
+(** * Hash memoisation (Memo.v: node.hash, hashWithCount, saveNewNodes, resetUnsavedHashes)
+
+    The model M1 above is pure, so "read-only calls never change a later hash" cannot fail in
+    it. The code memoises hashes inside the nodes: [Memo.memo_step] transcribes that (a hash
+    memoised by a read-only call is what saveNewNodes stores). On every history in which each
+    memoising read uses the version the nodes will be saved under, and SetInitialVersion resets
+    the memoised hashes (or there are none, or the working version does not change), the
+    memoising machine returns what the pure machine returns. *)
+Module MemoPart.
+Import Memo MemoFacts.
+
+Theorem C02_memo_refines_pure :
+  forall (H : bytes -> bytes) (ops : list mop) (st : memo_state),
+    minv H st -> run_ok H st ops = true ->
+    snd (memo_run H st ops) = snd (pure_run H (erase_state st) ops) /\
+    erase_state (fst (memo_run H st ops)) = fst (pure_run H (erase_state st) ops) /\
+    minv H (fst (memo_run H st ops)).
+Proof. exact run_refines. Qed.
+Print Assumptions C02_memo_refines_pure.
+
+Theorem C02_memo_invariant_initially :
+  forall (H : bytes -> bytes) (iv : option Z), minv H (memo_init iv).
+Proof. exact minv_init. Qed.
+Print Assumptions C02_memo_invariant_initially.
+
+(** Read-only calls (hash, working hash, proofs, graph dump: [MRead], [MWorkingHash]) can be
+    deleted from a history without changing any output of the other calls or the final tree. *)
+Theorem C02_reads_never_change_hashes :
+  forall (H : bytes -> bytes) (st : memo_state) (ops : list mop),
+    minv H st -> vrun_ok H (erase_state st) ops = true ->
+    snd (memo_run H st (writes ops)) = write_outs ops (snd (memo_run H st ops)) /\
+    erase_state (fst (memo_run H st (writes ops))) = erase_state (fst (memo_run H st ops)).
+Proof. exact reads_never_change_hashes. Qed.
+Print Assumptions C02_reads_never_change_hashes.
+
+(** saveNewNodes stores the canonical hashes when the memoised ones are for its version. *)
+Theorem C02_memo_save_is_stamp :
+  forall (H : bytes -> bytes) (wv : Z) (t : mnode),
+    memo_ok H wv t -> forall n,
+    erase (fst (msave H wv n t)) = fst (stamp H wv n (erase t)) /\
+    snd (msave H wv n t) = snd (stamp H wv n (erase t)).
+Proof. exact msave_spec. Qed.
+Print Assumptions C02_memo_save_is_stamp.
+
+(** resetUnsavedHashes (fix b7ad1cb) re-establishes the invariant for any working version. *)
+Theorem C02_reset_unsaved :
+  forall (H : bytes -> bytes) (wv' : Z) (t : mnode),
+    closed t -> memo_ok H wv' (reset_unsaved t) /\ erase (reset_unsaved t) = erase t.
+Proof. exact reset_memo_ok. Qed.
+Print Assumptions C02_reset_unsaved.
+
+(** The repaired defects, as refutations of the unguarded statement (SHA-256, by computation):
+    SetInitialVersion after WorkingHash without the reset (b7ad1cb), and a read-only call that
+    hashes the working tree with version+1 instead of the initial version (Hash/WorkingHash/
+    proofs before the nextVersion() fix, WriteDOTGraph before c402680). *)
+Theorem C02_setiv_without_reset_refuted :
+  exists ops,
+    minv sha256 (memo_init None) /\
+    (forall rv, ~ In (MRead rv) ops) /\
+    snd (memo_run sha256 (memo_init None) ops) <> snd (pure_run sha256 (pure_init None) ops).
+Proof. exact setiv_without_reset_refuted. Qed.
+Print Assumptions C02_setiv_without_reset_refuted.
+
+Theorem C02_read_with_wrong_version_refuted :
+  exists ops,
+    minv sha256 (memo_init (Some 10)) /\
+    (forall v r, ~ In (MSetIV v r) ops) /\
+    snd (memo_run sha256 (memo_init (Some 10)) ops) <>
+      snd (pure_run sha256 (pure_init (Some 10)) ops).
+Proof. exact read_with_wrong_version_refuted. Qed.
+Print Assumptions C02_read_with_wrong_version_refuted.
+
+(** non-vacuity: a 26-operation history with rotations, removals, reads of each kind, two
+    SetInitialVersion calls and two commits meets the hypotheses *)
+Example C02_memo_hypotheses_satisfiable :
+  vrun_ok sha256 (pure_init (Some 7)) demo_ops = true /\
+  run_ok sha256 (memo_init (Some 7)) demo_ops = true /\
+  length (writes demo_ops) = 15%nat.
+Proof. exact demo_admissible. Qed.
+End MemoPart.
